@@ -281,11 +281,11 @@ Proof.
   exact (aB _ A _ _ _ _ _ Heqo0 Heqa).
 Qed.
 
-Lemma step_aB s a s' o : InvT c s -> InvA s -> vals_distinct (hist s) -> no_ext a -> step c s a = Some (s', o) ->
+Lemma step_aB s a s' o : InvT c s -> InvA s -> vals_distinct (hist s) -> no_ext a -> wf_action a -> step c s a = Some (s', o) ->
   forall p q k v d, pt_at s' p q -> papi q = AInsRet k v d RTrue ->
   exists e, sget k (stg s') = Some (v, e) /\ now s' + d * sec - msn < e.
 Proof.
-  intros I A V NE H. start I H a; andb_h; unfold pt_at, li_at in *; same_idx; scbn;
+  intros I A V NE W H. start I H a; try (exfalso; exact W); andb_h; unfold pt_at, li_at in *; same_idx; scbn;
     try contradiction; try easy1;
     try solve [match goal with Hq : nth_error (parts _) _ = Some ?q, E : papi ?q = AInsRet _ _ _ RTrue |- _ => exact (aB _ A _ _ _ _ _ Hq E) end].
   all: try (match goal with Hc : apply_out _ _ (st_ins _ _ _ _ _) = _ |- _ => pose proof (ins_cases _ _ _ _ _ _ _ _ Hc) as Hcases
@@ -309,8 +309,8 @@ Proof.
   rewrite sget_sput, N.eqb_refl. eexists; split; [reflexivity|]. apply exp_of_gt; assumption.
 Qed.
 
-Lemma step_InvA s a s' o : InvT c s -> InvA s -> vals_distinct (hist s) -> no_ext a -> step c s a = Some (s', o) -> InvA s'.
-Proof. intros I A V NE H. constructor; [eapply step_aA | eapply step_aB]; eauto. Qed.
+Lemma step_InvA s a s' o : InvT c s -> InvA s -> vals_distinct (hist s) -> no_ext a -> wf_action a -> step c s a = Some (s', o) -> InvA s'.
+Proof. intros I A V NE W H. constructor; [eapply step_aA | eapply step_aB]; eauto. Qed.
 
 Lemma init_InvA np : InvA (init np).
 Proof.
@@ -526,7 +526,7 @@ Proof.
   intros Ce S W H. constructor.
   - destruct a; inv_step H; intros; nthsimp; satS S; unfold dur_ok in *; rw_ph; scbn; destr; try lia.
   - destruct a; inv_step H; intros; nthsimp; satS S; unfold dur_ok in *; rw_ph; scbn; destr; try easy1; cbn in W; try lia.
-  - destruct a; inv_step H; intros; nthsimp; satS S; unfold dur_ok, timing, itv in *; rewrite ?Ce in *; rw_ph; scbn;
+  - destruct a; inv_step H; try (exfalso; exact W); intros; nthsimp; satS S; unfold dur_ok, timing, itv in *; rewrite ?Ce in *; rw_ph; scbn;
       andb_h; quiet_h; rw_ph; scbn; andb_h; zb; destr; itvb; destr; try easy1; live_h; destr;
       brk_goal; rw_ph; scbn; andb_h; zb; destr; try easy1;
       try (split; [repeat split; first [lia | discriminate | intros; lia] | discriminate]).
